@@ -709,6 +709,10 @@ def main(ctx):
             for outs in itertools.product(OUT, repeat=k):
                 unitsc.append(("f8", base + outs, "kinds"))
                 unitsc.append(("f8", (base + outs)[::-1], "kinds"))
+    # the same sets at other physical scales (fluxes of 1e-17, counts of 1e20): every threshold of the clipping is relative
+    for scale_ in (2.0 ** -56, 2.0 ** 66, 2.0 ** -400):        # (squares must stay representable: not below 2^-500)
+        unitsc.append(("f8", tuple(v * scale_ for v in EX1 + (50.0,)), "kinds"))
+        unitsc.append(("f8", tuple(v * scale_ for v in BASE_GENERIC + (50.0, -30.0)), "kinds"))
     # explicit weighted binary-exact set: mean 0, weighted dev 1, nsig 2 puts +-2 on the boundary
     unitsc.append(("f8", (-2.0, 2.0, 0.0), ((1.0, 1.0, 6.0),)))
     unitsc.append(("f8", (0.0, -2.0, 2.0, 50.0), ((6.0, 1.0, 1.0, 1.0),)))
